@@ -146,11 +146,12 @@ type wstate struct {
 	blocks  []int
 	rng     map[string][2]int64
 	tuples  map[ssa.Value][]AV // results of inlined multi-result calls
+	refunds int                // visits given back for loop tests that were decided by program constants (bounded)
 }
 
 func (s *wstate) clone() *wstate {
 	n := &wstate{env: make(map[ssa.Value]AV, len(s.env)), mem: make(map[*ssa.Alloc]AV, len(s.mem)), heap: make(map[string]AV, len(s.heap)),
-		asg: make(Asg, len(s.asg)), visits: make(map[int]int, len(s.visits))}
+		asg: make(Asg, len(s.asg)), visits: make(map[int]int, len(s.visits)), refunds: s.refunds}
 	for k, v := range s.env {
 		n.env[k] = v
 	}
@@ -655,6 +656,19 @@ func (w *walker) inlineCall(s *wstate, b, prev *ssa.BasicBlock, depth, idx int, 
 
 func (w *walker) branch(s *wstate, b *ssa.BasicBlock, in *ssa.If, depth int) {
 	av := w.val(s, in.Cond)
+	if av.C != nil && av.C.Kind() == constant.Bool && s.refunds < 48 {
+		// decided by the program's own constants, before any assumption of the path is consulted (the counter of a
+		// loop over a table of fixed length: `for _, step := range [5]func…`): such a test does not fork the path, so
+		// it does not use up the visit budget of its block — the loop is unrolled
+		s.refunds++
+		s.visits[b.Index]--
+		// ... and neither do the blocks of the loop this test heads: each round of an unrolled loop is a first visit
+		for _, x := range b.Parent().Blocks {
+			if x != b && s.visits[x.Index] > 0 && b.Dominates(x) && inNaturalLoop(b, x) {
+				s.visits[x.Index]--
+			}
+		}
+	}
 	av = w.refine(s, av)
 	if av.C != nil && av.C.Kind() == constant.Bool {
 		if constant.BoolVal(av.C) {
